@@ -186,6 +186,8 @@ def build(case, rng=None):
         m.aux_data["peSafeExceptionHandlers"] = gtirb.AuxData(
             {bu.blocks[b] for b in case["safeseh"]}, "set<UUID>")
 
+    if case.get("no_expr_sizes_table"):
+        del m.aux_data["symbolicExpressionSizes"]
     build_cfg(case, lst, bu)
     return bu, lst
 
